@@ -1704,7 +1704,7 @@ def getattr_(ex, obj, name):
         if name == 'indices':
             return NativeMethod(obj, name)
         ex.throw('AttributeError', "'slice' object has no attribute %r" % name)
-    if isinstance(obj, CondVal) and name in ('notified', 'waits'):
+    if isinstance(obj, CondVal) and name in ('notified', 'notified_all', 'waits'):
         return getattr(obj, name)       # ghost counters (spec only)
     if isinstance(obj, LockVal) and name == 'held':
         return obj.held
